@@ -349,6 +349,7 @@ static void payload_from_seed(uint32_t pseed, size_t nbytes, uint8_t* out)
 }
 
 extern "C" int64_t GetFreeSendBufferBits(struct utcp_connection* fd);
+extern "C" bool is_connected(struct utcp_connection* fd);
 
 // ---------------------------------------------------------------- structure-aware re-encoding of a handshake datagram
 struct HsFields
@@ -490,6 +491,19 @@ static Bytes mutate(const Bytes& in, const std::string& kind, long a, long b)
 	{
 		d.push_back((uint8_t)a);
 	}
+	else if (kind == "nib") // write the 4-bit value b at bit offset a (LSB first), e.g. the history-word-count field
+	{
+		for (int k = 0; k < 4; ++k)
+		{
+			size_t bit = (size_t)a + k;
+			if (bit / 8 < d.size())
+			{
+				d[bit / 8] &= (uint8_t)~(1u << (bit % 8));
+				if ((b >> k) & 1)
+					d[bit / 8] |= (uint8_t)(1u << (bit % 8));
+			}
+		}
+	}
 	return d;
 }
 
@@ -581,6 +595,24 @@ int main(int argc, char** argv)
 		if (line.empty() || line[0] == '#')
 			continue;
 		emit("> %s", line.c_str());
+		// "ifconn <id> <op ...>": the application only performs <op> on a connection that is connected and has not been closed
+		if (line.compare(0, 7, "ifconn ") == 0)
+		{
+			std::istringstream pre(line);
+			std::string kw;
+			int id = -1;
+			pre >> kw >> id;
+			HConn* c = get_conn(id);
+			if (!c || !is_connected(c->get_fd()) || c->get_fd()->bClose)
+			{
+				emit("ret skip");
+				continue;
+			}
+			std::string rest;
+			std::getline(pre, rest);
+			size_t p0 = rest.find_first_not_of(' ');
+			line = p0 == std::string::npos ? std::string() : rest.substr(p0);
+		}
 		std::istringstream is(line);
 		std::string op;
 		is >> op;
@@ -809,6 +841,25 @@ int main(int argc, char** argv)
 			is >> id;
 			if (HConn* c = get_conn(id))
 				emit("ret %d %d", c->get_fd()->bClose ? 1 : 0, (int)c->get_fd()->CloseReason);
+		}
+		else if (op == "chans") // open-channel table: index:bClose:NumOutRec:NumInRec, in table order
+		{
+			int id;
+			is >> id;
+			if (HConn* c = get_conn(id))
+			{
+				struct utcp_channels* chs = &c->get_fd()->channels;
+				std::string line = "ret " + std::to_string(chs->open_channels.num);
+				for (int i = 0; i < chs->open_channels.num; ++i)
+				{
+					int idx = chs->open_channels.channels[i];
+					struct utcp_channel* ch = chs->Channels[idx];
+					char tmp[64];
+					snprintf(tmp, sizeof(tmp), " %d:%d:%d:%d", idx, ch ? (int)ch->bClose : -1, ch ? (int)ch->NumOutRec : -1, ch ? (int)ch->NumInRec : -1);
+					line += tmp;
+				}
+				emit("%s", line.c_str());
+			}
 		}
 		else if (op == "rpl") // replay: datagram (highest index delivered so far) - k of src, to dst again
 		{
